@@ -291,3 +291,25 @@ def table_calls(a, f, table):
             if cs is not None and cs.kind in ("table", "stored") and cs.targets and {t.id for t in cs.targets} <= ids:
                 out.append(n)
     return out
+
+
+def eq_texts(a, b):
+    """both spellings of the symmetric test a == b"""
+    return {f"{a} == {b}", f"{b} == {a}"}
+
+
+def ne_texts(a, b):
+    return {f"{a} != {b}", f"{b} != {a}"}
+
+
+def conjuncts(test):
+    """normalised conjunct texts of a test (a single conjunct when it is not a conjunction)"""
+    return {norm(v) for v in (test.values if isinstance(test, ast.BoolOp) and isinstance(test.op, ast.And) else [test])}
+
+
+_MIRROR = {"<": ">", ">": "<", "<=": ">=", ">=": "<=", "==": "==", "!=": "!="}
+
+
+def cmp_texts(a, op, b):
+    """both spellings of a comparison: a >= b  /  b <= a"""
+    return {f"{a} {op} {b}", f"{b} {_MIRROR[op]} {a}"}
